@@ -164,10 +164,16 @@ def check(ctx):
         g = noresults(facts_atoms(us, guard_facts(us, n)))
         if loops:
             kind = 'king'
-        elif on2 in g:
-            kind = 'double'
         else:
-            kind = 'single'
+            # by where the pawn goes: straight to the fourth rank, or one rank up
+            from rules.norm import Norm as _Nk
+            tgt_ = _Nk(us).s(kids(n)[3])
+            if tgt_.startswith('make_square(%d,' % RK['RANK_4']):
+                kind = 'double'
+            elif on2 in g and 'rank(wPawn)' not in tgt_:
+                kind = 'double'
+            else:
+                kind = 'single'
         if kind in classes:
             raise AnalysisBroken('C12: two successors of kind %s in update_score' % kind)
         classes[kind] = (n, g)
